@@ -3,6 +3,7 @@ package main
 import (
 	"bytes"
 	"fmt"
+	"net"
 	"sync"
 	"time"
 
@@ -25,6 +26,7 @@ type connInfo struct {
 	traffic     int
 	badAfter    bool
 	unflushed   bool     // ReadFrom without a following Flush: outside the property's write operations
+	sender      *peer    // UDP: the sender of the datagram this identity stands for
 	asyncIssued [][]byte // payloads of asynchronous writes with callback, in issue order
 	asyncDone   int
 	untracked   bool // an asynchronous write without callback was issued: effect point unknown to the oracle
@@ -42,6 +44,7 @@ type handler struct {
 	nCbs      int
 	w         *tr.Writer
 	cur       *connInfo // connection of the innermost callback in progress
+	udpPeers  map[string]*peer
 	inTraffic chan struct{}
 	release   chan struct{}
 }
@@ -191,6 +194,48 @@ func (h *handler) onUDP(c gnet.Conn) gnet.Action {
 		src = c.RemoteAddr().String()
 	}
 	h.rec.Obs(tr.L("cb", "udp", tr.I(cid), src))
+	// C08: one datagram, one event, right peer, intact payload
+	h.mu.Lock()
+	sp := h.udpPeers[src]
+	h.mu.Unlock()
+	if sp == nil {
+		h.rec.Fail("udp-remote", "unknown-sender", "RemoteAddr "+src+" is not the address of any sender")
+	} else {
+		ci.sender = sp
+		h.mu.Lock()
+		var want []byte
+		if sp.delivered < len(sp.dgrams) {
+			want = sp.dgrams[sp.delivered]
+		}
+		sp.delivered++
+		h.mu.Unlock()
+		if len(want) > h.cfg.bufcap {
+			want = want[:h.cfg.bufcap]
+		}
+		got, _ := c.Peek(-1)
+		if !bytes.Equal(got, want) || c.InboundBuffered() != len(want) {
+			h.rec.Fail("udp-payload", "differs", fmt.Sprintf("datagram from %s: handler sees %d bytes, sender sent %d", src, len(got), len(want)))
+		}
+		if h.rnd.Chance(20) {
+			// SendTo an explicit address (the sender's, in 16-byte IP form); not part of the model: oracle only
+			if ua, err := net.ResolveUDPAddr("udp", src); err == nil {
+				ua.IP = ua.IP.To16()
+				data := h.payload(h.rnd.Pick([]int{0, 1, 33}))
+				h.rec.mu.Lock()
+				h.rec.suppress = true
+				h.rec.mu.Unlock()
+				_, err := c.SendTo(data, ua)
+				h.rec.mu.Lock()
+				h.rec.suppress = false
+				h.rec.mu.Unlock()
+				if err == nil {
+					h.mu.Lock()
+					sp.expReplies = append(sp.expReplies, data)
+					h.mu.Unlock()
+				}
+			}
+		}
+	}
 	h.script(ci, "udp")
 	a := gnet.None
 	h.rec.Op(tr.L("hret", actName(a)))
@@ -497,6 +542,11 @@ func (h *handler) doCall(ci *connInfo, call string, n int, data []byte, cb bool)
 		rec.Op(h.hl(ci, "write", tr.X(data)))
 		m, err := c.Write(data)
 		rec.Obs(tr.L("hr", tr.I(ci.cid), "write", tr.I(m), errSym(err)))
+		if err == nil && ci.udp && ci.sender != nil {
+			h.mu.Lock()
+			ci.sender.expReplies = append(ci.sender.expReplies, append([]byte(nil), data...))
+			h.mu.Unlock()
+		}
 		if err == nil && !ci.udp {
 			ci.accepted = append(ci.accepted, data...)
 		} else if err != nil {
